@@ -41,6 +41,7 @@ type aeadEntry struct {
 }
 
 type dgramRec struct {
+	otherPort     bool // sent from the server's address but another port
 	fromServer    bool
 	payload       []byte // UDP payload (for SCION: what the parser shows as the SCION/UDP payload)
 	uidOK, authOK bool
@@ -66,6 +67,7 @@ type worker struct {
 	rng          *lib.Rng
 	addrA, addrB netip.Addr
 	connA, connB *net.UDPConn
+	connC        *net.UDPConn // server address, other port
 	connS        *net.UDPConn // SCION underlay socket of the scripted peer
 	keLn         net.Listener
 	kePort       int
@@ -112,11 +114,24 @@ func selfSigned() tls.Certificate {
 func newWorker(id int, seed uint64, a, b netip.Addr) *worker {
 	w := &worker{id: id, rng: lib.NewRng(seed), addrA: a, addrB: b}
 	var err error
-	w.connA, err = net.ListenUDP("udp4", net.UDPAddrFromAddrPort(netip.AddrPortFrom(a, 0)))
-	if err != nil {
-		panic(err)
+	// the second source has another address but the same port number as the server
+	for try := 0; ; try++ {
+		w.connA, err = net.ListenUDP("udp4", net.UDPAddrFromAddrPort(netip.AddrPortFrom(a, 0)))
+		if err != nil {
+			panic(err)
+		}
+		port := uint16(w.connA.LocalAddr().(*net.UDPAddr).Port)
+		w.connB, err = net.ListenUDP("udp4", net.UDPAddrFromAddrPort(netip.AddrPortFrom(b, port)))
+		if err == nil {
+			break
+		}
+		w.connA.Close()
+		if try > 50 {
+			panic(err)
+		}
 	}
-	w.connB, err = net.ListenUDP("udp4", net.UDPAddrFromAddrPort(netip.AddrPortFrom(b, 0)))
+	// a third socket on the server's address with another port
+	w.connC, err = net.ListenUDP("udp4", net.UDPAddrFromAddrPort(netip.AddrPortFrom(a, 0)))
 	if err != nil {
 		panic(err)
 	}
@@ -503,6 +518,10 @@ func (w *worker) build(rc recipe, rq *reqRec, idx int) (payload []byte, fromServ
 		uid = r.Bytes(32)
 	case 20:
 		pt = make([]byte, 28+4*int(rc.p1%3))
+	case 21:
+		if wantInter {
+			interleavedBase()
+		}
 	}
 
 	b := h.bytes(r)
@@ -569,7 +588,7 @@ func (w *worker) udpLoop() {
 		var genuine []byte
 		for i, rc := range rq.recipes {
 			pl, fs := w.build(rc, rq, i)
-			d := dgramRec{fromServer: fs, payload: pl}
+			d := dgramRec{fromServer: fs, payload: pl, otherPort: rc.kind == 21}
 			if w.nts {
 				uid, uf, nonce, ct, ap, af := walk(pl)
 				d.uidOK = uf && bytes.Equal(uid, rq.uid)
@@ -596,6 +615,8 @@ func (w *worker) udpLoop() {
 			c := w.connA
 			if !d.fromServer {
 				c = w.connB
+			} else if d.otherPort {
+				c = w.connC
 			}
 			_, _ = c.WriteToUDPAddrPort(d.payload, addr)
 		}
